@@ -37,6 +37,13 @@ def _ambiguous_dt(r):
 def _value(r):
     k = r.random()
     if k < 0.3:
+        if r.random() < 0.12:
+            # a zone built from a TZif file (the local zone when TZ names a file): it has no key and
+            # the standard library refuses to pickle it, so only copy/deepcopy are exercised on it
+            z = r.choice(gen_dt.DST_ZONES)
+            inst = gen_dt.pick_instant(r, z, lo_year=1975, hi_year=2035)
+            f, _, fold = tzdb.render(z, inst)
+            return {"$": "dt_filezone", "f": f, "zone": z, "fold": fold}, "datetime_filezone"
         if r.random() < 0.4:
             v = _ambiguous_dt(r)
             if v:
@@ -90,17 +97,24 @@ def gen(rp, rw, tier):
             T = {"$": "p", "i": i}
             kind = meta[i]["kind"]
             x = rp.random()
-            if x < 0.55:
+            if kind == "datetime_filezone":
+                ops.append(rp.choice([["copy", T], ["deepcopy", T], ["deepcopy", T], ["obs", T]]))
+            elif x < 0.55:
                 ops.append(rp.choice([["copy", T], ["deepcopy", T], ["pickle", T, rp.randint(0, 5)], ["pickle", T, rp.randint(0, 5)]]))
                 j = len(ops) - 1
+                how = ops[j][0]
+                proto = ops[j][2] if how == "pickle" else None
                 y = rp.random()
-                if y < 0.35 and (kind in ("date", "time", "duration") or (kind == "interval" and not _has_repeated(pool[i]))):
+                if y < 0.35 and (kind in ("date", "time", "duration")
+                                 or (kind == "interval" and (not _has_repeated(pool[i]) or how in ("copy", "deepcopy")))):
                     # the statement's == clause covers date, time, duration and interval values - not
                     # DateTime: PEP 495 makes an aware datetime on a repeated wall time compare unequal to
-                    # everything carrying another tzinfo *object*, so equality there is an identity question
-                    ops.append(["eqpair", {"$": "r", "i": j}, T])
+                    # everything carrying another tzinfo *object*, so equality there is an identity question.
+                    # copy/deepcopy keep the endpoints' own tzinfo objects, so an Interval copy is equal even
+                    # on a repeated wall time; a pickle round trip may hand out another zone object.
+                    ops.append(["eqcopy", T, how] + ([proto] if proto is not None else []))
                 elif y < 0.5 and kind == "datetime":
-                    ops.append(["bin", "sub", {"$": "r", "i": j}, T])       # copy - original: a zero interval, whatever tzinfo identity
+                    ops.append(["subcopy", T, how] + ([proto] if proto is not None else []))   # copy - original: a zero interval
                 elif y < 0.6 and kind in ("duration", "interval"):
                     ops.append(["multi", {"$": "r", "i": j}, ["hours", "minutes", "remaining_seconds", "invert"]])
             elif x < 0.8:
@@ -165,6 +179,21 @@ def l2_check(run):
                     viols.append({"oracle": "L2.roundtrip", "label": op[0], "actor": a["name"], "i": i, "op": op, "sim_obs": o,
                                   "detail": {"original": want, "value": sc["pool"][idx]},
                                   "facts": {"how": op[0], "class": cls}, "sig_extra": [cls]})
+            elif op[0] == "eqcopy":
+                idx = op[1]["i"]
+                n += 1
+                if not (isinstance(o, list) and o[0] == "seq" and o[1] is True and o[2] is True and o[3] in (True, None)):
+                    cls = _input_class(sc["pool"][idx], meta[idx]["kind"])
+                    viols.append({"oracle": "L2.equal", "label": "eqcopy:" + op[2], "actor": a["name"], "i": i, "op": op, "sim_obs": o,
+                                  "detail": {"value": sc["pool"][idx], "how": op[2]}, "facts": {"how": op[2], "class": cls}, "sig_extra": [cls]})
+            elif op[0] == "subcopy":
+                idx = op[1]["i"]
+                n += 1
+                ok = isinstance(o, list) and o and o[0] == "Interval" and o[6] == [0, 0, 0] and o[4] == [0] * 8
+                if not ok:
+                    cls = _input_class(sc["pool"][idx], meta[idx]["kind"])
+                    viols.append({"oracle": "L2.zero_distance", "label": "subcopy:" + op[2], "actor": a["name"], "i": i, "op": op, "sim_obs": o,
+                                  "detail": {"value": sc["pool"][idx], "how": op[2]}, "facts": {"how": op[2], "class": cls}, "sig_extra": [cls]})
             elif op[0] == "eqpair":
                 src = a["ops"][op[1]["i"]]
                 idx = op[2]["i"]
